@@ -1,7 +1,7 @@
 (* C15 -- Elevation conditioning makes elevation non-increasing downstream. *)
 From Coq Require Import List Arith ZArith Bool.
 Import ListNotations.
-From PF Require Import Arr Net Elev ElevSpec DigSpec Fix1dSpec.
+From PF Require Import Arr Net Elev ElevSpec DigSpec Fix1dSpec Fix1dMono Fix1dContract.
 Local Open Scope Z_scope.
 
 (* The raster/tree level, for EVERY network, EVERY complete topological order and EVERY elevation field, and for
@@ -40,10 +40,38 @@ Theorem fix1d_identity_on_sorted : forall e, nonincr e -> fix1d e = e.
 Proof. exact Fix1dSpec.fix1d_identity_on_sorted. Qed.
 Print Assumptions fix1d_identity_on_sorted.
 
-(* PARTIAL: the remaining three clauses of the contract (output non-increasing, last value kept, within range) are
-   established for every profile of length <= 7 over {0..4} by kernel evaluation of all 97 656 of them; the bound is
-   part of the statement.  For longer profiles / other values they are NOT proved: the correspondence check and the
-   oracle on the implementation's output stand in (see DESIGN.md, C15). *)
+(* The faithful 1-D fixer satisfies the WHOLE contract, for every profile: the result is non-increasing, keeps the most
+   downstream value, stays within the range of the input and fixes non-increasing profiles.  Proof by the loop
+   invariant of dem._adjust_elevation: before the first pit the processed prefix is non-increasing; afterwards the
+   profile is a non-increasing prefix up to imin followed by a hump that rises to imax and falls again (the pit
+   detector, with its stale reads z1 >= e[i-1], cannot miss a rise in the falling part), and each of the three repairs
+   (dig, fill, dig-and-fill at every candidate level of the unique-descending scan) turns prefix + hump into a
+   non-increasing prefix (Fix1dMono.v: fix_pit_ok, step_inv, last_step). *)
+Theorem fix1d_contract : contract fix1d.
+Proof. exact Fix1dContract.fix1d_contract. Qed.
+Print Assumptions fix1d_contract.
+
+Theorem fix1d_contract_all : forall l lo hi, l <> [] -> (forall x, In x l -> lo <= x <= hi) ->
+  length (fix1d l) = length l /\ ninc (fix1d l) 0 (length l) /\
+  zn (fix1d l) (length l - 1) = zn l (length l - 1) /\ (forall k, (k < length l)%nat -> lo <= zn (fix1d l) k <= hi).
+Proof. exact Fix1dMono.fix1d_contract_all. Qed.
+Print Assumptions fix1d_contract_all.
+
+(* hence, for dem.adjust_elevation itself (no hypothesis on the fixer): no cell lower than its downstream cell, cells
+   outside the network untouched, values within the input range on the network, idempotent, conforming input unchanged *)
+Theorem adjust_elevation_spec : forall ds sq elv lo hi, topo ds sq -> complete ds sq -> length elv = length ds ->
+  (forall i, valid ds i -> lo <= zn elv i <= hi) ->
+  let out := adjust fix1d ds sq elv in
+  length out = length elv /\
+  (forall i, valid ds i -> dsf ds i <> i -> zn out (dsf ds i) <= zn out i) /\
+  (forall i, ~ valid ds i -> zn out i = zn elv i) /\
+  (forall i, valid ds i -> lo <= zn out i <= hi) /\
+  adjust fix1d ds sq out = out /\
+  ((forall i, valid ds i -> dsf ds i <> i -> zn elv (dsf ds i) <= zn elv i) -> out = elv).
+Proof. exact Fix1dContract.adjust_elevation_spec. Qed.
+Print Assumptions adjust_elevation_spec.
+
+(* (kept as an independent cross-check of the above by kernel evaluation: all 97 656 profiles of length <= 7 over {0..4}) *)
 Theorem fix1d_contract_bounded : forall l, l <> [] -> (length l <= 7)%nat -> Forall (fun x => 0 <= x <= 4) l ->
   length (fix1d l) = length l /\ nonincr (fix1d l) /\
   zn (fix1d l) (length l - 1) = zn l (length l - 1) /\
